@@ -11,11 +11,20 @@ EXTENDS Integers, Sequences, Bitwise
 
 LIMB == 65536
 
-WXor(a, b) == [i \in 1..Len(a) |-> a[i] ^^ b[i]]
-WAnd(a, b) == [i \in 1..Len(a) |-> a[i] & b[i]]
-WOr(a, b)  == [i \in 1..Len(a) |-> a[i] | b[i]]
-WNot(a)    == [i \in 1..Len(a) |-> 65535 - a[i]]
-WXor3(a, b, c) == [i \in 1..Len(a) |-> (a[i] ^^ b[i]) ^^ c[i]]
+(* TLC evaluates a function constructor [i \in S |-> e] lazily and without *)
+(* memoisation (every application re-evaluates e), which is exponential in *)
+(* chains of word operations.  Words are therefore built as explicit       *)
+(* tuples (k = 2 or k = 4 limbs), and Eager(f) = f turns any finite        *)
+(* sequence-valued function into an evaluated tuple.                        *)
+Tup(k, F(_)) == IF k = 2 THEN <<F(1), F(2)>> ELSE <<F(1), F(2), F(3), F(4)>>
+Eager(f) == f \o <<>>
+
+WXor(a, b) == Tup(Len(a), LAMBDA i : a[i] ^^ b[i])
+WAnd(a, b) == Tup(Len(a), LAMBDA i : a[i] & b[i])
+WOr(a, b)  == Tup(Len(a), LAMBDA i : a[i] | b[i])
+WNot(a)    == Tup(Len(a), LAMBDA i : 65535 - a[i])
+WXor3(a, b, c) == IF Len(a) = 2 THEN <<(a[1] ^^ b[1]) ^^ c[1], (a[2] ^^ b[2]) ^^ c[2]>>
+                  ELSE Tup(4, LAMBDA i : (a[i] ^^ b[i]) ^^ c[i])
 
 (* limb of significance s (0 = least significant) *)
 LimbAt(w, s) == w[Len(w) - s]
@@ -24,12 +33,12 @@ LimbAt(w, s) == w[Len(w) - s]
 WRotr(w, n) ==
     LET k == Len(w)
         q == n \div 16
-        r == n % 16
-        lo == 2 ^ r
-        hi == 2 ^ (16 - r)
-    IN [i \in 1..k |->
-          LET s == k - i IN
-          (LimbAt(w, (s + q) % k) \div lo) + (LimbAt(w, (s + q + 1) % k) % lo) * hi]
+        lo == 2 ^ (n % 16)
+        hi == 2 ^ (16 - (n % 16))
+        (* limb i of the result: the limb q places up, shifted, plus the low *)
+        (* bits of the limb q + 1 places up (indices cyclic in 1..k)        *)
+        L(i) == (w[((i - q - 1 + k) % k) + 1] \div lo) + (w[((i - q - 2 + k) % k) + 1] % lo) * hi
+    IN IF k = 2 THEN <<L(1), L(2)>> ELSE <<L(1), L(2), L(3), L(4)>>
 WRotl(w, n) == WRotr(w, (16 * Len(w) - n) % (16 * Len(w)))
 
 (* logical shift right by n bits, 0 <= n < 16k *)
@@ -40,39 +49,55 @@ WShr(w, n) ==
         lo == 2 ^ r
         hi == 2 ^ (16 - r)
         G(s) == IF s < k THEN LimbAt(w, s) ELSE 0
-    IN [i \in 1..k |->
-          LET s == k - i IN (G(s + q) \div lo) + (G(s + q + 1) % lo) * hi]
+    IN Tup(k, LAMBDA i : (G(k - i + q) \div lo) + (G(k - i + q + 1) % lo) * hi)
 
-(* sum modulo 2^(16k) of a non-empty sequence of at most 30000 words *)
+(* sum modulo 2^(16k) of a non-empty sequence of at most 30000 words:      *)
+(* column sums first, then one carry chain from the least significant limb *)
 WSum(ws) ==
     LET k == Len(ws[1])
         n == Len(ws)
         RECURSIVE col(_, _)
-        col(i, j) == IF j = 0 THEN 0 ELSE ws[j][i] + col(i, j - 1)
-        RECURSIVE cy(_)     \* carry into limb i from the less significant limbs
-        cy(i) == IF i = k THEN 0 ELSE (col(i + 1, n) + cy(i + 1)) \div LIMB
-    IN [i \in 1..k |-> (col(i, n) + cy(i)) % LIMB]
+        col(i, j) == IF j = 1 THEN ws[1][i] ELSE ws[j][i] + col(i, j - 1)
+    IN IF k = 2
+       THEN LET s2 == col(2, n)
+                s1 == col(1, n) + s2 \div LIMB
+            IN <<s1 % LIMB, s2 % LIMB>>
+       ELSE LET s4 == col(4, n)
+                s3 == col(3, n) + s4 \div LIMB
+                s2 == col(2, n) + s3 \div LIMB
+                s1 == col(1, n) + s2 \div LIMB
+            IN <<s1 % LIMB, s2 % LIMB, s3 % LIMB, s4 % LIMB>>
 WAdd(a, b) == WSum(<<a, b>>)
 
 (* big-endian bytes b[o+1 .. o+2k] -> word of k limbs; and back *)
-WFromBE(b, o, k) == [i \in 1..k |-> b[o + 2 * i - 1] * 256 + b[o + 2 * i]]
-WToBE(w) == [j \in 1..(2 * Len(w)) |->
-               IF j % 2 = 1 THEN w[(j + 1) \div 2] \div 256 ELSE w[j \div 2] % 256]
+WFromBE(b, o, k) == Tup(k, LAMBDA i : b[o + 2 * i - 1] * 256 + b[o + 2 * i])
+WToBE(w) == Eager([j \in 1..(2 * Len(w)) |->
+               IF j % 2 = 1 THEN w[(j + 1) \div 2] \div 256 ELSE w[j \div 2] % 256])
 (* little-endian bytes b[o+1 .. o+2k] -> word; and back *)
-WFromLE(b, o, k) == [i \in 1..k |-> b[o + 2 * (k - i) + 2] * 256 + b[o + 2 * (k - i) + 1]]
+WFromLE(b, o, k) == Tup(k, LAMBDA i : b[o + 2 * (k - i) + 2] * 256 + b[o + 2 * (k - i) + 1])
 WToLE(w) == LET k == Len(w) IN
-            [j \in 1..(2 * k) |->
-               IF j % 2 = 1 THEN w[k - (j - 1) \div 2] % 256 ELSE w[k - (j - 2) \div 2] \div 256]
+            Eager([j \in 1..(2 * k) |->
+               IF j % 2 = 1 THEN w[k - (j - 1) \div 2] % 256 ELSE w[k - (j - 2) \div 2] \div 256])
 
 (* the non-negative integer n < 2^31 as a word of k limbs *)
-WOfNat(n, k) == [i \in 1..k |-> IF k - i = 0 THEN n % LIMB
-                                ELSE IF k - i = 1 THEN n \div LIMB ELSE 0]
+WOfNat(n, k) == Tup(k, LAMBDA i : IF k - i = 0 THEN n % LIMB
+                                  ELSE IF k - i = 1 THEN n \div LIMB ELSE 0)
+
+(* Iter(F, v, lo, hi) = F(...F(F(v, lo), lo + 1)..., hi): a left fold over  *)
+(* lo..hi, split in halves so that the recursion depth is logarithmic (TLC  *)
+(* resolves every identifier by walking the chain of enclosing bindings,    *)
+(* so a deep linear recursion makes each step slower).                      *)
+RECURSIVE Iter(_, _, _, _)
+Iter(F(_, _), v, lo, hi) ==
+    IF lo > hi THEN v
+    ELSE IF lo = hi THEN F(v, lo)
+    ELSE LET mid == (lo + hi) \div 2 IN Iter(F, Iter(F, v, lo, mid), mid + 1, hi)
 
 (* concatenation of a sequence of byte sequences *)
 RECURSIVE Flatten(_)
 Flatten(ss) == IF ss = <<>> THEN <<>> ELSE Head(ss) \o Flatten(Tail(ss))
 Take(s, n) == SubSeq(s, 1, n)
-Zeros(n) == [i \in 1..n |-> 0]
+Zeros(n) == Eager([i \in 1..n |-> 0])
 
 ASSUME WRotr(<<\H1234, \H5678>>, 4) = <<\H8123, \H4567>>
 ASSUME WRotr(<<\H1234, \H5678>>, 20) = <<\H4567, \H8123>>
